@@ -92,6 +92,12 @@ Definition set_tx_power_127 (g : cfg127) (p : Z) (is_tx_prep : bool) : prog unit
 
 Definition bw_hz_of (bw : N) : Z := Toa.bw_hz (Z.of_N bw).
 
+(* the read-modify-write functions applied to the registers that hold the low-data-rate-optimisation bit
+   (SX1272: RegModemConfig1 bit 0, shared with header mode (bit 2) and CRC (bit 1); SX1276: RegModemConfig3 bit 3) *)
+Definition mod_c1_1272 (c1 bwv crv ldro : N) : N := N.lor (N.lor (N.lor (N.land c1 6) (u8 (bwv * 64))) (u8 (crv * 8))) ldro.
+Definition pkt_c1_1272 (c1 : N) (implicit crc : bool) : N := N.lor (N.lor (N.land c1 0xF9) (b2n implicit * 4)) (b2n crc * 2).
+Definition mod_c3_1276 (c3 ldro : N) : N := N.lor (N.land c3 0xf3) (if ldro =? 0 then 0 else 8).
+
 Definition set_mod_1276 (quirk : bool) (sfv bwv crd ldro bw freq : N) : prog unit :=
   c2 <- rreg s7_Register_RegModemConfig2 ;;
   wreg s7_Register_RegModemConfig2 (N.lor (N.land c2 0x0f) (N.land (u8 (sfv * 16)) 0xf0)) ;;;
@@ -100,7 +106,7 @@ Definition set_mod_1276 (quirk : bool) (sfv bwv crd ldro bw freq : N) : prog uni
   c1' <- rreg s7_Register_RegModemConfig1 ;;
   wreg s7_Register_RegModemConfig1 (N.lor (N.land c1' 0xf1) (u8 ((crd - 4) * 2))) ;;;
   c3 <- rreg s7_Register_RegModemConfig3 ;;
-  wreg s7_Register_RegModemConfig3 (N.lor (N.land c3 0xf3) (if ldro =? 0 then 0 else 8)) ;;;
+  wreg s7_Register_RegModemConfig3 (mod_c3_1276 c3 ldro) ;;;
   (if quirk then
      if (bw =? 9) && (862000000 <=? freq) && (freq <=? 1020000000) then wreg s7_Register_RegHighBwOptimize1 2 ;;; wreg s7_Register_RegHighBwOptimize2 0x64
      else if (bw =? 9) && (410000000 <=? freq) && (freq <=? 525000000) then wreg s7_Register_RegHighBwOptimize1 2 ;;; wreg s7_Register_RegHighBwOptimize2 0x7f
@@ -114,7 +120,7 @@ Definition set_mod_1276 (quirk : bool) (sfv bwv crd ldro bw freq : N) : prog uni
 
 Definition set_mod_1272 (sfv bwv crv ldro : N) : prog unit :=
   c1 <- rreg s7_Register_RegModemConfig1 ;;
-  wreg s7_Register_RegModemConfig1 (N.lor (N.lor (N.lor (N.land c1 6) (u8 (bwv * 64))) (u8 (crv * 8))) ldro) ;;;
+  wreg s7_Register_RegModemConfig1 (mod_c1_1272 c1 bwv crv ldro) ;;;
   c2 <- rreg s7_Register_RegModemConfig2 ;;
   wreg s7_Register_RegModemConfig2 (N.lor (N.land c2 15) (u8 (sfv * 16))).
 
@@ -145,7 +151,7 @@ Definition set_pkt_127 (g : cfg127) (preamble : N) (implicit : bool) (len : N) (
      wreg s7_Register_RegModemConfig2 (if crc then N.lor c2 4 else N.land c2 0xfb)
    | V1272 =>
      c1 <- rreg s7_Register_RegModemConfig1 ;;
-     wreg s7_Register_RegModemConfig1 (N.lor (N.lor (N.land c1 0xF9) (b2n implicit * 4)) (b2n crc * 2))
+     wreg s7_Register_RegModemConfig1 (pkt_c1_1272 c1 implicit crc)
    end) ;;;
   (if implicit then wreg s7_Register_RegPayloadLength len else Ret tt) ;;;
   wreg s7_Register_RegInvertiq (N.lor 0x26 (if iq then 64 else 1)) ;;;
